@@ -146,12 +146,20 @@ func (r *Router) NewIQResultRoute(ctx context.Context, id string) chan stanza.IQ
 	// is done.
 	go func() {
 		<-route.context.Done()
-		r.IQResultRouteLock.Lock()
-		delete(r.IQResultRoutes, id)
-		r.IQResultRouteLock.Unlock()
+		r.dropIQResultRoute(id, route)
 	}()
 
 	return route.result
+}
+
+// dropIQResultRoute unregisters the pending route of id, unless a newer request with
+// the same id has taken its place.
+func (r *Router) dropIQResultRoute(id string, route *IQResultRoute) {
+	r.IQResultRouteLock.Lock()
+	if r.IQResultRoutes[id] == route {
+		delete(r.IQResultRoutes, id)
+	}
+	r.IQResultRouteLock.Unlock()
 }
 
 func (r *Router) Match(p stanza.Packet, match *RouteMatch) bool {
